@@ -12,7 +12,7 @@ import (
 	"golang.org/x/tools/go/ssa"
 )
 
-const resRe = `c\.next\.\w+\([^#]*\)#0`
+const resRe = `c\.next\.\w+\(.*?\)#0`
 
 // rx lets the rule tables say `res` for "the answer of the wrapped node" (c.next.X(...)#0).
 func rx(s string) string { return strings.ReplaceAll(s, `res\.`, resRe+`\.`) }
@@ -210,7 +210,7 @@ func init() {
 			"Status": "node status is not part of the chain", "ABCIInfo": "app info is not committed", "BroadcastTxCommit": "submission", "BroadcastTxAsync": "submission", "BroadcastTxSync": "submission",
 			"UnconfirmedTxs": "mempool content is not committed", "NumUnconfirmedTxs": "mempool content is not committed", "CheckTx": "not committed", "NetInfo": "peer info", "DumpConsensusState": "local consensus state",
 			"ConsensusState": "local consensus state", "Health": "liveness", "Genesis": "documented: genesis is not verified", "GenesisChunked": "documented: genesis is not verified",
-			"TxSearch": "documented limitation: results are not verified", "BlockSearch": "documented limitation: results are not verified", "BroadcastEvidence": "submission",
+			"BroadcastEvidence": "submission",
 			"Subscribe": "event stream", "Unsubscribe": "event stream", "UnsubscribeAll": "event stream", "ABCIQuery": "delegates to ABCIQueryWithOptions", "OnStart": "lifecycle", "OnStop": "lifecycle",
 			"SubscribeWS": "event stream", "UnsubscribeWS": "event stream", "UnsubscribeAllWS": "event stream",
 		}
@@ -486,7 +486,17 @@ func init() {
 			{"Client.Block", guardRe("part-set header equals the verified commit's", `^true\(`+res("Block")+`\.BlockID\.PartSetHeader\.Equals\(c\.updateLightClientIfNeededTo\(.*\)#0\.SignedHeader\.Commit\.BlockID\.PartSetHeader\)\)$`)},
 			{"Client.BlockByHash", guardRe("part-set header equals the verified commit's", `^true\(`+res("BlockByHash")+`\.BlockID\.PartSetHeader\.Equals\(c\.updateLightClientIfNeededTo\(.*\)#0\.SignedHeader\.Commit\.BlockID\.PartSetHeader\)\)$`)},
 			{"Client.BlockResults", guardCmp("the results are for the height asked of the node", `c\.next\.BlockResults\(ctx, .*\)#0\.Height`, "==", `&?\w+|c\.\w+\(ctx, height\)#0`)},
-			{"Client.ConsensusParams", guardAny("the parameters are for the requested height (when one was given)", guardRe("n", `^nil\(height\)$`), guardCmp("h", res("ConsensusParams")+`\.BlockHeight`, "==", "height"))},
+		}
+		// ConsensusParams: bound to the height asked of the node — the caller's, or (F73) the latest verified
+		// height the method resolved a missing one to
+		if f := c.fn("light/rpc", "Client.ConsensusParams"); f != nil {
+			asked := "height"
+			for _, call := range w.callsMatching(f, `^c\.next\.ConsensusParams\(`) {
+				if a := callArgs(call); len(a) == 2 {
+					asked = w.expr(a[1])
+				}
+			}
+			obs = append(obs, ob{"Client.ConsensusParams", guardAny("the parameters are for the height asked of the node (when one was given)", guardRe("n", `^nil\(`+q(asked)+`\)$`), guardCmp("h", `c\.next\.ConsensusParams\(.*?\)#0\.BlockHeight`, "==", q(asked)))})
 		}
 		for _, o := range obs {
 			f := c.fn("light/rpc", o.fn)
@@ -704,5 +714,199 @@ func init() {
 			}
 			c.Check(n == 1, fk+" :: evidence members validated", w.pos(f.Pos()), "1", fmt.Sprintf("%d", n))
 		}
+	})
+}
+
+// ------------------------------------------------------------------ C20.R14, R15, R16
+// F72: the search methods are the plural siblings of Tx and Block and relayed the node's answer untouched.
+// F74: BlockchainInfo compared header hashes only. F73: ConsensusParams without a height asked the node for a
+// height no header exists for yet, so no honest answer was ever accepted.
+func init() {
+	item := func(method, list string) string {
+		return `c\.next\.` + method + `\(.*?\)#0\.` + list + `\[` + fwdIdx + `\]`
+	}
+	upd := func(h string) string { return `c\.updateLightClientIfNeededTo\(ctx, ` + h + `\)` }
+	// loopGuards: every back edge of the loop that holds `in` is behind each guard; the loop visits every
+	// element of `list` unless the method fails; success returns that relay the answer lie behind the loop
+	// (or on an edge `skip` allows)
+	searchLoop := func(c *Ctx, f *ssa.Function, fk string, in ssa.Instruction, wantTrips *regexp.Regexp, skip *Guard, gs []Guard) {
+		w := c.W
+		hdr := loopOf(in)
+		if hdr == nil {
+			c.Fail(fk+" :: verification loop", w.ipos(in), "the items are not verified inside a loop over the answer's list")
+			return
+		}
+		trips, okT := unitLoopTripsX(w, in, func(b *ssa.BasicBlock) bool { return edgeOnlyFails(w, f, b) })
+		c.Check(okT && wantTrips.MatchString(trips), fk+" :: every item of the answer is visited", w.ipos(in), "one iteration per item, left early only by failing", "the loop runs "+trips+" times or can be left early with success")
+		for _, p := range hdr.Preds {
+			if !hdr.Dominates(p) {
+				continue
+			}
+			at := p.Instrs[len(p.Instrs)-1]
+			for _, g := range gs {
+				ok, path := c.ge().guardedEdge(f, p, hdr, g, 3)
+				c.Check(ok, fk+" :: next item <= "+g.Name, w.ipos(at), "the loop only continues behind the check", "the loop continues to the next item without: "+g.Name+" via "+pathStr(w, path))
+			}
+		}
+		n := 0
+		for _, r := range returnsOf(f) {
+			ret := r.(*ssa.Return)
+			if len(ret.Results) != 2 || isNilConst(ret.Results[0]) {
+				continue
+			}
+			n++
+			if hdr.Dominates(ret.Block()) && !loopBlocks(hdr)[ret.Block()] {
+				c.OK(fk+" :: relay behind the verification loop", w.ipos(ret), "after the loop")
+				continue
+			}
+			if skip != nil {
+				c.guards(f, ret, fk+" :: relay without verification", 0, *skip)
+			} else {
+				c.Fail(fk+" :: relay behind the verification loop", w.ipos(ret), "the answer is relayed on a path that does not pass the verification loop")
+			}
+		}
+		c.Check(n >= 1, fk+" :: relaying return found", w.pos(f.Pos()), ">= 1", fmt.Sprintf("%d", n))
+	}
+	register("C20", "R14", "K1", "tx_search (with proofs) and block_search verify every item like Tx and Block do, and visit every item", 20, func(c *Ctx) {
+		w := c.W
+		if f := c.fn("light/rpc", "Client.TxSearch"); f != nil {
+			fk := funcKey(f)
+			R := item("TxSearch", "Txs")
+			h := R + `\.Height`
+			lb := upd(h) + `#0`
+			np := guardAny("no proof was requested (or the node reported an error)", guardRe("np", `^false\(prove\)$`), guardRe("err", `^nonnil\(c\.next\.TxSearch\(.*?\)#1\)$`))
+			gs := []Guard{
+				guardRe("the item is present", `^nonnil\(`+R+`\)$`),
+				guardCmp("height positive", h, ">", "0"),
+				guardRe("light client verified the item's height", `^nil\(`+upd(h)+`#1\)$`),
+				guardRe("inclusion proof validates against the verified data hash", `^nil\(`+R+`\.Proof\.Validate\(`+lb+`\.SignedHeader\.Header\.DataHash\)\)$`),
+				guardRe("relayed tx bytes are the proven leaf", `^true\(bytes\.Equal\(`+R+`\.Tx, `+R+`\.Proof\.Data\)\)$`),
+				guardRe("relayed hash is the hash of the proven tx", `^true\(bytes\.Equal\(`+R+`\.Hash, `+R+`\.Tx\.Hash\(\)\)\)$`),
+				guardCmp("relayed index is the proven position", R+`\.Index`, "==", R+`\.Proof\.Proof\.Index`),
+			}
+			var in ssa.Instruction
+			for _, dc := range w.deepCallsTo(f, 2, "light/rpc#Client.updateLightClientIfNeededTo") {
+				in = dc.site
+			}
+			if in == nil {
+				c.Fail(fk+" :: verification loop", w.pos(f.Pos()), "TxSearch relays transactions with proofs without consulting the light client")
+			} else {
+				searchLoop(c, f, fk, in, regexp.MustCompile(`^len\(c\.next\.TxSearch\(.*\)#0\.Txs\)$`), &np, gs)
+			}
+		}
+		if f := c.fn("light/rpc", "Client.BlockSearch"); f != nil {
+			fk := funcKey(f)
+			R := item("BlockSearch", "Blocks")
+			h := R + `\.Block\.Header\.Height`
+			lb := upd(h) + `#0`
+			gs := []Guard{
+				guardRe("the item is present", `^nonnil\(`+R+`\)$`),
+				guardRe("block id well formed", `^nil\(`+R+`\.BlockID\.ValidateBasic\(\)\)$`),
+				guardRe("whole block internally consistent (content hashes match the header)", `^nil\(`+R+`\.Block\.ValidateBasic\(\)\)$`),
+				guardRe("block id hash equals the block's hash", `^true\(bytes\.Equal\(`+R+`\.BlockID\.Hash, `+R+`\.Block\.Hash\(\)\)\)$`),
+				guardRe("light client verified the item's height", `^nil\(`+upd(h)+`#1\)$`),
+				guardRe("block hash equals the verified header's hash", `^true\(bytes\.Equal\(`+R+`\.Block\.Hash\(\), `+lb+`\.SignedHeader\.Header\.Hash\(\)\)\)$`),
+				guardRe("part-set header equals the verified commit's", `^true\(`+R+`\.BlockID\.PartSetHeader\.Equals\(`+lb+`\.SignedHeader\.Commit\.BlockID\.PartSetHeader\)\)$`),
+			}
+			var in ssa.Instruction
+			for _, dc := range w.deepCallsTo(f, 2, "light/rpc#Client.updateLightClientIfNeededTo") {
+				in = dc.site
+			}
+			if in == nil {
+				c.Fail(fk+" :: verification loop", w.pos(f.Pos()), "BlockSearch relays blocks without consulting the light client")
+			} else {
+				searchLoop(c, f, fk, in, regexp.MustCompile(`^len\(c\.next\.BlockSearch\(.*\)#0\.Blocks\)$`), nil, gs)
+			}
+		}
+	})
+	register("C20", "R15", "K1", "BlockchainInfo relays a meta only with the verified part-set header and within the heights asked for", 4, func(c *Ctx) {
+		w := c.W
+		f := c.fn("light/rpc", "Client.BlockchainInfo")
+		if f == nil {
+			return
+		}
+		fk := funcKey(f)
+		R := item("BlockchainInfo", "BlockMetas")
+		h := R + `\.Header\.Height`
+		gs := []Guard{
+			guardRe("part-set header equals the verified commit's", `^true\(`+R+`\.BlockID\.PartSetHeader\.Equals\(`+upd(h)+`#0\.SignedHeader\.Commit\.BlockID\.PartSetHeader\)\)$`),
+			guardCmp("not below the lowest height asked for", h, ">=", "minHeight"),
+			guardAny("not above the highest height asked for (when one was given)", guardCmp("none", "maxHeight", "<=", "0"), guardCmp("le", h, "<=", "maxHeight")),
+		}
+		n := 0
+		for _, u := range w.callsTo(f, "light/rpc#Client.updateLightClientIfNeededTo") {
+			hdr := loopOf(u)
+			if hdr == nil {
+				continue
+			}
+			for _, p := range hdr.Preds {
+				if !hdr.Dominates(p) {
+					continue
+				}
+				n++
+				at := p.Instrs[len(p.Instrs)-1]
+				for _, g := range gs {
+					ok, path := c.ge().guardedEdge(f, p, hdr, g, 2)
+					c.Check(ok, fk+" :: next meta <= "+g.Name, w.ipos(at), "the loop only continues behind the check", "the loop continues to the next meta without: "+g.Name+" via "+pathStr(w, path))
+				}
+			}
+		}
+		c.Check(n >= 1, fk+" :: verification loop found", w.pos(f.Pos()), ">= 1 back edge", fmt.Sprintf("%d", n))
+	})
+	register("C20", "R16", "K1", "ConsensusParams asks the node for a definite height (a missing one is resolved to the latest verified height first)", 2, func(c *Ctx) {
+		w := c.W
+		f := c.fn("light/rpc", "Client.ConsensusParams")
+		if f == nil {
+			return
+		}
+		fk := funcKey(f)
+		n := 0
+		for _, call := range w.callsMatching(f, `^c\.next\.ConsensusParams\(`) {
+			a := callArgs(call)
+			if len(a) != 2 {
+				continue
+			}
+			n++
+			// the height handed to the node is non-nil on every way to the call: an address, or the caller's
+			// pointer where it was tested
+			var bad []string
+			var visit func(v ssa.Value, pred, blk *ssa.BasicBlock, d int)
+			visit = func(v ssa.Value, pred, blk *ssa.BasicBlock, d int) {
+				switch x := v.(type) {
+				case *ssa.Phi:
+					if d < 3 {
+						for i, e := range x.Edges {
+							visit(e, x.Block().Preds[i], x.Block(), d+1)
+						}
+						return
+					}
+				case *ssa.FieldAddr, *ssa.Alloc, *ssa.IndexAddr:
+					return
+				}
+				if pred != nil && edgeNilness(pred, blk, v) == 1 {
+					return
+				}
+				if pred == nil {
+					for _, at := range dominatingAtoms(call.Block()) {
+						if at.Kind == "nonnil" && at.V != nil && sameValue(at.V, v) {
+							return
+						}
+					}
+				}
+				bad = append(bad, w.expr(v))
+			}
+			visit(a[1], nil, nil, 0)
+			c.Check(len(bad) == 0, fk+" :: ask the node for the parameters of a definite height", w.ipos(call), "non-nil height", "the node is asked without a height (it answers for the height it is about to decide, for which no header can be verified): "+strings.Join(bad, ", "))
+			// and the height it is resolved to is one the light client verified
+			if phi, ok := a[1].(*ssa.Phi); ok {
+				for _, e := range phi.Edges {
+					if fa, isFa := e.(*ssa.FieldAddr); isFa {
+						s := w.expr(fa.X)
+						c.Check(regexp.MustCompile(`^c\.updateLightClientIfNeededTo\(ctx, nil\)#0(\.SignedHeader(\.Header)?)?$`).MatchString(s), fk+" :: a missing height is resolved to the latest verified one", w.ipos(call), "height of updateLightClientIfNeededTo(ctx, nil)", "resolved to "+s)
+					}
+				}
+			}
+		}
+		c.Check(n == 1, fk+" :: request to the node found", w.pos(f.Pos()), "1", fmt.Sprintf("%d", n))
 	})
 }
